@@ -272,7 +272,7 @@ class Check(CheckBase):
                 counters['max_attempts_local'] = max(counters.get('max_attempts_local', 0), fired)
                 on_disk = {os.path.relpath(os.path.join(dp, f), repo): open(os.path.join(dp, f), 'rb').read()
                            for dp, _, fs in os.walk(repo) for f in fs}
-                temps = [n for n in on_disk if n.endswith('.tmp')]
+                temps = [n for n in on_disk if n != name]           # anything but the object itself is a leftover
                 w = {'op': op, 'fault': label, 'count': count, 'fired': fired, 'sizes': (len(old), len(new)), 'chunk': c,
                      'error': repr(err)[:200]}
                 if fired == 0:
